@@ -7,7 +7,8 @@ echo "# seeded change -> check, exit code (1 = violation reported = detected), f
 for D in /verif/seeded/C*/; do
   M=$(basename $D)
   ID=$(/venv/bin/python -c "import json;m=json.load(open('$D/meta.json'));c=m['detected_by']['check'];print(c if c!='none' else m['written_for_property'])")
-  R=$(/verif/tools/try_mutant.sh $D/patch.diff $ID quick $B 2>&1 | grep -v WARNING)
+  BB=$B; [ "$ID" = C03 ] && BB=0      # C03 walks a fixed configuration list: give it its default budget
+  R=$(/verif/tools/try_mutant.sh $D/patch.diff $ID quick $BB 2>&1 | grep -v WARNING)
   RC=$(echo "$R" | grep -o "exit=[0-9]*" | head -1)
   SIG=$(echo "$R" | grep "signature:" | head -1 | sed 's/^ *signature: //; s/   (seen.*//')
   echo "$M $ID $RC $SIG" | tee -a $OUT
